@@ -84,11 +84,12 @@ Lemma gcdext_euclid_ok :
   exists g s t, gcdext_euclid a b = Ok (g, s, t) /\ s * a + t * b = g /\ g = Z.gcd a b.
 Proof.
   unfold gcdext_euclid.
-  destruct (gcdext_loop_ok (Z.to_nat (Z.log2 (Z.abs b) + 1)) (gcdext_fuel b) 1 0 0 1 a b)
+  set (ts0 := if (a =? 0) && (b =? 0) then 0 else 1).
+  destruct (gcdext_loop_ok (Z.to_nat (Z.log2 (Z.abs b) + 1)) (gcdext_fuel b) ts0 0 0 1 a b)
     as (g & s & t & E & Hbz & Hg).
   - rewrite Z2Nat.id by (pose proof (Z.log2_nonneg (Z.abs b)); lia). apply abs_lt_pow_log2.
   - unfold gcdext_fuel. lia.
-  - unfold euclid_inv. repeat split; lia.
+  - unfold euclid_inv, ts0. destruct ((a =? 0) && (b =? 0)) eqn:E0; repeat split; lia.
   - rewrite E. cbn [bind]. pose proof (Z.gcd_nonneg a b).
     destruct (g <? 0) eqn:En.
     + exists (- g), (- s), (- t). split; [reflexivity|]. split; lia.
@@ -103,14 +104,9 @@ Proof.
   assert (G : is_gcd (Z.gcd a b) a b).
   { unfold is_gcd. repeat split; [apply Z.gcd_nonneg | apply Z.gcd_divide_l | apply Z.gcd_divide_r
       | intros; now apply Z.gcd_greatest]. }
-  unfold nt_gcd_ext, gcdext. destruct c.
-  - destruct ((a =? 0) && (b =? 0)) eqn:E.
-    + assert (a = 0) by lia. assert (b = 0) by lia. subst.
-      exists 0, 0, 0. split; [reflexivity|]. split; [reflexivity|]. exact G.
-    + destruct (gcdext_euclid_ok a b) as (g & s & t & E1 & E2 & E3). rewrite E3 in E1, E2.
-      exists (Z.gcd a b), s, t. split; [exact E1|]. split; [exact E2|exact G].
-  - destruct (gcdext_euclid_ok a b) as (g & s & t & E1 & E2 & E3). rewrite E3 in E1, E2.
-    exists (Z.gcd a b), s, t. split; [exact E1|]. split; [exact E2|exact G].
+  unfold nt_gcd_ext, gcdext.
+  destruct (gcdext_euclid_ok a b) as (g & s & t & E1 & E2 & E3). rewrite E3 in E1, E2.
+  exists (Z.gcd a b), s, t. split; [exact E1|]. split; [exact E2|exact G].
 Qed.
 
 Lemma gcdext_gcd c a b :
